@@ -21,8 +21,10 @@ SPECS = [
     # unambiguous, several start symbols
     ('<start> ::= <k> "=" <v>\n<k> ::= <c>+\n<v> ::= <d>{1,3}\n<c> ::= "a" | "b"\n<d> ::= "0" | "1"\n', ["ab=01", "a=1", "ab", "b=111"]),
     ('<start> ::= <item>{2,}\n<item> ::= "(" <item>? ")" | "x"\n', ["x()", "(x)x", "()()", "((x))x", "x"]),
+    # a computed repetition whose count field may lie outside the parsed part (sub-start symbol, or a hook-in tree as the protocol code passes)
+    ('<start> ::= <n> <body> | <body> "x"\n<n> ::= "2" | "3"\n<body> ::= <item>{int(<n>)}\n<item> ::= "a"\n', ["3aaa", "aaa", "aa", "aaax", "2aa", "aax"]),
 ]
-STARTS = {3: ["<start>", "<k>", "<v>"], 4: ["<start>", "<item>"]}
+STARTS = {3: ["<start>", "<k>", "<v>"], 4: ["<start>", "<item>"], 5: ["<start>", "<body>"]}
 
 
 def obligations(res):
@@ -134,6 +136,18 @@ def gen_history(rng, res):
             ans = list(fan.parse(w))
             term = f"(ParseAll {coq_nat(k)}, {tree_list(ans)})"
             txt = f"api.parse({w!r})"
+        elif si == 5 and rng.random() < 0.6:
+            # a request with a hook-in tree (the part of a message already seen), as io/packetparser.py makes them; its answer is not judged,
+            # later requests without a hook-in must not be affected by it
+            from fandango.language.tree import DerivationTree
+            from fandango.language.symbols import NonTerminal, Terminal
+            cnt = rng.choice(["2", "3"])
+            hk = DerivationTree(NonTerminal("<start>"), [DerivationTree(NonTerminal("<n>"), [DerivationTree(Terminal(cnt))])])
+            try:
+                g.parse(rng.choice(["aaa", "aa"]), "<body>", hookin_parent=hk)
+            except Exception:
+                pass
+            term, txt = "(Fuzz, [])", f"parse-with-hookin(<n>={cnt})"
         else:
             random.seed(rng.randrange(1 << 30))
             try:
